@@ -31,7 +31,36 @@ def _passes():
         'CleanPass': CleanPass, 'CJumpPass': CJumpPass}
 
 
+def _discover(passes):
+    """every concrete ModulePass subclass defined in the ppci.opt package must be in PASSES: classes
+    not in the hand-written table are added under their class name (so no pass is silently left out)"""
+    import importlib
+    import inspect
+    import pkgutil
+    import ppci.opt
+    from ppci.opt.transform import ModulePass
+    known = set(passes.values())
+    added = []
+    for mi in pkgutil.iter_modules(ppci.opt.__path__):
+        try:
+            mod = importlib.import_module('ppci.opt.' + mi.name)
+        except Exception:      # noqa: BLE001
+            continue
+        for _, cls in inspect.getmembers(mod, inspect.isclass):
+            if issubclass(cls, ModulePass) and not inspect.isabstract(cls) and cls not in known \
+                    and cls.__module__.startswith('ppci.opt'):
+                try:
+                    cls()
+                except Exception:      # noqa: BLE001  (needs constructor arguments: cannot be run blindly)
+                    continue
+                passes[cls.__name__] = cls
+                known.add(cls)
+                added.append(cls.__name__)
+    return added
+
+
 PASSES = _passes()
+DISCOVERED = _discover(PASSES)
 PIPELINE = ['Mem2Reg', 'RemoveAddZero', 'ConstantFolder', 'CSE', 'TailCall', 'LoadAfterStore',
             'DeleteUnused', 'CleanPass']          # api.optimize order (x3, then CJumpPass at -O3)
 
